@@ -122,14 +122,23 @@ func wrapText(s string, l int, prefix string) string {
 
 		line = strings.TrimSpace(line)
 
-		for len(line) > l {
+		for utf8.RuneCountInString(line) > l {
 			// Try to split on space
 			suffix := ""
 
-			pos := strings.LastIndex(line[:l], " ")
+			// byte offset of the first l characters
+			cut := 0
+
+			for n := 0; n < l; n++ {
+				_, size := utf8.DecodeRuneInString(line[cut:])
+				cut += size
+			}
+
+			pos := strings.LastIndex(line[:cut], " ")
 
 			if pos < 0 {
-				pos = l - 1
+				_, size := utf8.DecodeLastRuneInString(line[:cut])
+				pos = cut - size
 				suffix = "-\n"
 			}
 
